@@ -11,7 +11,7 @@ type orC03A struct {
 	baseOracle
 	lockLostAt map[string]time.Duration // incarnation -> instant its ownership of the lock znode ended (server truth)
 	ownedEver  map[string]bool
-	ownedSess  map[string]int64 // incarnation -> session in which it last created the lock znode
+	ownedSess  map[string]int64         // incarnation -> session in which it last created the lock znode
 	newSessAt  map[string]time.Duration // incarnation -> instant its latest session was established
 	newSess    map[string]int64
 }
